@@ -300,17 +300,28 @@ fn state_diff(a: &str, b: &str) -> String {
     out.join("+")
 }
 
+/// The behaviour-relevant content: an ordered flow without messages, or an envelope with zero
+/// copies, is the same as no entry at all.
+fn canon(mut d: RefState) -> RefState {
+    match &mut d.net {
+        RefNet::Ordered(f) => f.retain(|_, q| !q.is_empty()),
+        RefNet::NonDup(b) => b.retain(|_, n| *n > 0),
+        RefNet::Dup(..) => {}
+    }
+    d
+}
+
 /// Identity checks over the states of one walk.
 pub fn check_states(states: &[RealState], rng: &mut Rng, pool: &mut Pool, v: &mut Vec<Violation>, c: &mut Counters) {
     let mut reals: Vec<(String, RealState)> = Vec::new();
     for s in states {
-        let d = dump_real(s);
+        let d = canon(dump_real(s));
         let key = format!("{:?}", d);
         pool.add("ActorModelState", key.clone(), stateright::verif_fingerprint(s), calls(s), "reached", state_diff, v);
         c.inc("identity_states_reached");
         // perturbed rebuilds must not split
         let r = rebuild(&d, rng);
-        let rd = dump_real(&r);
+        let rd = canon(dump_real(&r));
         if rd == d {
             pool.add("ActorModelState", key.clone(), stateright::verif_fingerprint(&r), calls(&r), "rebuilt (shuffled insertion, other hasher keys, capacity)", state_diff, v);
             c.inc("identity_perturbed_rebuilds");
